@@ -144,8 +144,11 @@ func runC04(r *mon.Run) {
 					continue // NewKeyshareCommitments sizes its randomiser by N.BitLen()==1024; toy keys with Lstatzk=80 are outside its domain
 				}
 				reps := 1
-				if r.Thorough() && k <= 4 && !strings.HasPrefix(kn, "fix") {
+				if r.Thorough() {
 					reps = 3
+					if !strings.HasPrefix(kn, "fix") {
+						reps = 10
+					}
 				}
 				for rep := 0; rep < reps; rep++ {
 					jobs = append(jobs, job{kn, k, v, rng.Uint64()})
